@@ -653,6 +653,19 @@ func Rename(oldpath, newpath string) error {
 	w.enter(true)
 	op, n := w.resolve(oldpath, false)
 	np := clean(newpath)
+	// os.Rename looks at the new name first (lstat) and answers EEXIST itself,
+	// without a rename call, when a directory sits there; a failing lstat is
+	// ignored by it
+	w.meta("lstat")
+	w.log(OpRec{Kind: "lstat", Path: newpath, Task: w.task()})
+	if t := w.Nodes[np]; t != nil && t.Mode&ModeDir != 0 && n != nil {
+		w.meta("lstat")
+		w.log(OpRec{Kind: "lstat", Path: oldpath, Task: w.task()})
+		if t != n {
+			w.mu.Unlock()
+			return &os.LinkError{Op: "rename", Old: oldpath, New: newpath, Err: syscall.EEXIST}
+		}
+	}
 	fail, killAfter, _ := w.mutate("rename")
 	finish := func(e syscall.Errno, tag string) error {
 		w.log(OpRec{Kind: "rename", Path: oldpath + " -> " + newpath, Err: tag, Mut: w.NMut, Task: w.task()})
